@@ -276,7 +276,7 @@ def run(ctx):
         ctx.tried(key if used > 0 else None)
         rep = dict(rho=str(rho), rho_type=type(rho_arg).__name__, step=step, order=order, num_terms=nt, length=length, ncols=ncols,
                    L=[str(x) for x in Ls], a=[[str(x) for x in a] for a in As], h0=str(h0), object_reconfigured=reused,
-                   entry_point=entry, steps_sign=sgn)
+                   entry_point=entry)
         ctx.keep('Richardson', new, **rep)
         if not cplx and rng.random() < 0.25:
             # the dtype of the sequence is not part of its value: the same whole numbers as an integer array (or the same values as
